@@ -67,8 +67,41 @@ def lost_wakeup(prefix, sleep_at=None):
     return _run(body, prefix, sleep_at)
 
 
+def timed_get(prefix, sleep_at=None):
+    """A consumer with a timeout: 'the timer lands first' must be explored, but never be the default answer."""
+    import queue as _q
+
+    q = vt.VQueue()
+    got = []
+
+    def consumer():
+        try:
+            got.append(q.get(timeout=5.0))
+        except _q.Empty:
+            got.append("timeout")
+
+    def body():
+        t = vt.VThread(target=consumer, name="consumer")
+        t.start()
+        q.put("item")
+        t.join(timeout=1.0)
+        alive = t.is_alive()
+        t.join()
+        return (got[0] if got else None, alive)
+
+    return _run(body, prefix, sleep_at)
+
+
 def main() -> int:
     failures = 0
+    # 0. waits with a timeout: default execution = no timer lands; exploring finds the timeout and the early return of join
+    first = timed_get([])[1]["value"]
+    outs = {o["value"] for _, _, o in ex.explore(timed_get, bound=None)}
+    pouts = {o["value"] for _, _, o in ex.explore_por(timed_get)}
+    want = {("item", False), ("item", True), ("timeout", False)}   # (a consumer that timed out has no further step before its exit)
+    if first != ("item", False) or outs != want or pouts != want:
+        print(f"selftest E1 timed waits: default {first}, outcomes {outs}, reduced {pouts}, expected {want}")
+        failures += 1
     # 1. lost update: not reachable without a preemption, reachable with one; all interleavings give {1, 2}
     for bound, expect in ((0, {2}), (1, {1, 2}), (None, {1, 2})):
         outs = {o["value"] for _, _, o in ex.explore(lost_update, bound=bound)}
